@@ -249,3 +249,9 @@ for _p, _cfg in PROPS.items():
             "harness/src/dumpfmt.rs: field-by-field dump of the COMPILED format constants and dictionaries (nvh dump-formats), "
             "cross-checked against the tables read from the source text on every run (tools/fmtdump.py, Props/Tie.v) and used "
             "in their place when the source is written in a shape tools/translate.py does not read"]
+
+# the vocabulary AS DOCUMENTED (table T2d: the same-line comments of the lexical format instances) is an obligation of the two
+# properties that speak of it: C03 ("the same vocabulary for every constructor") and C10 ("mean what the documentation says")
+for _p in ("C03", "C10", "C10F"):
+    PROPS[_p]["tables"] = list(PROPS[_p]["tables"]) + ["T2d"]
+    PROPS[_p]["props"] = list(PROPS[_p]["props"]) + ["Props/TieDoc.v"]
